@@ -1,5 +1,6 @@
 import Orx.KSRun
-import Orx.GenThms
+import Orx.GenThms.Range
+import Orx.GenThms.Slice
 /-! # C16 Boundary arithmetic: extreme ranges and chunk sizes behave mathematically -/
 namespace Orx.Props.C16
 open Orx Orx.KS
